@@ -144,7 +144,13 @@ pub fn panic_sig(p: &str) -> String {
     let mut out = String::new();
     let (loc, msg) = p.split_once(" :: ").unwrap_or((p, ""));
     // strip the absolute prefix of the repository
-    let loc = loc.replace("/repo/", "");
+    let mut loc = loc.replace("/repo/", "");
+    // the GUI binary is compiled from a verbatim copy generated by vgui/build.rs (same line numbers)
+    for gen in ["/out/mstsc_plain.rs", "/out/mstsc_shuttle.rs"] {
+        if let Some(i) = loc.find(gen) {
+            loc = format!("src/bin/mstsc-rs.rs{}", &loc[i + gen.len()..]);
+        }
+    }
     out.push_str(&loc);
     out.push_str(" :: ");
     let mut prev_digit = false;
@@ -324,6 +330,8 @@ pub struct RunResult {
     pub n_cases: u64,
     pub wall_s: f64,
     pub crashes: u64,
+    /// the sweep was cut short because too many cases crashed the worker (the crashes are violations)
+    pub aborted_early: bool,
 }
 
 struct Slot {
@@ -378,7 +386,18 @@ pub fn run_parent(prop: &mut dyn Prop, tier: Tier) -> Result<RunResult, String> 
     }
     let mut crash_viols: Vec<(u64, String, String)> = vec![];
     let mut crashes = 0u64;
+    let mut aborted_early = false;
     loop {
+        if aborted_early {
+            for s in slots.iter_mut() {
+                if let Some(sl) = s.as_mut() {
+                    let _ = sl.child.kill();
+                    let _ = sl.child.wait();
+                }
+                *s = None;
+            }
+            break;
+        }
         let mut alive = 0;
         for w in 0..nw {
             let mut respawn: Option<(u64, u64)> = None;
@@ -428,8 +447,9 @@ pub fn run_parent(prop: &mut dyn Prop, tier: Tier) -> Result<RunResult, String> 
                 }
             }
             if let Some((from, inc)) = respawn {
-                if crashes > 2000 {
-                    return Err("more than 2000 worker crashes: giving up (machinery)".into());
+                if crashes > 200 {
+                    aborted_early = true;
+                    break;
                 }
                 journals[w].set(0, 0);
                 journals[w].set(3, 0);
@@ -454,6 +474,7 @@ pub fn run_parent(prop: &mut dyn Prop, tier: Tier) -> Result<RunResult, String> 
         n_cases: n,
         wall_s: 0.0,
         crashes,
+        aborted_early,
     };
     for w in 0..nw {
         let p = dir.join(format!("result.{}.jsonl", w));
@@ -515,7 +536,7 @@ pub fn run_parent(prop: &mut dyn Prop, tier: Tier) -> Result<RunResult, String> 
     let _ = std::fs::remove_dir_all(&dir);
     rr.wall_s = t0.elapsed().as_secs_f64();
     // crashed cases are executed but their stats line may predate them; evaluations must cover the space
-    if rr.evals != n {
+    if rr.evals != n && !aborted_early {
         return Err(format!("{} of {} cases were accounted for (machinery)", rr.evals, n));
     }
     Ok(rr)
@@ -557,9 +578,11 @@ pub fn one_main(mut prop: Box<dyn Prop>, tier: Tier, idx: u64, verbose: bool) ->
         eprintln!("index {} out of range ({} cases)", idx, prop.n_cases());
         return 2;
     }
-    let out = guarded(prop.as_mut(), idx);
     if verbose {
         eprintln!("case: {}", prop.describe(idx));
+    }
+    let out = guarded(prop.as_mut(), idx);
+    if verbose {
         eprintln!("class: {}", out.class);
         if let Some(n) = &out.note {
             eprintln!("note: {}", n);
